@@ -158,8 +158,22 @@ def judge_pubkey_address(ctx, case):
     k, tn = case["k"], case["testnet"]
     pt = secp.gmul(k)
     K = PrivateKey(k.to_bytes(32, "big")).K
+    src = case.get("key_source", "private")
+    if src != "private":
+        # the key object comes from one of the SEC serialisations the parser accepts (compressed, uncompressed, and - with the
+        # ecdsa backend - the X9.62 hybrid 06/07 and the raw 64-byte form); a parser that refuses a form is fine
+        from btc_hd_wallet.keys import PublicKey
+        x, y = pt[0].to_bytes(32, "big"), pt[1].to_bytes(32, "big")
+        enc = {"compressed": secp.ser(pt, True), "uncompressed": secp.ser(pt, False), "hybrid": bytes([6 + (pt[1] & 1)]) + x + y, "raw64": x + y}[src]
+        try:
+            K = PublicKey.parse(enc)
+        except Exception as e:  # noqa
+            if src in ("compressed", "uncompressed"):
+                return ctx.judge("pubkey_address", False, case, "key", e, cls="pk|parse-raised", mech="C05.pubkey_address.parse_raised")
+            return ctx.judge("pubkey_address", True, case, "key", e, cls="pk|%s|form-refused" % src, outcome="form-refused")
     bad = []
-    for comp in (True, False):
+    order = (True, False) if not case.get("uncompressed_first") else (False, True)
+    for comp in order + order:          # (both forms, asked twice in the case's order on the SAME key object)
         sec = secp.ser(pt, comp)
         for typ in ("p2pkh", "p2wpkh"):
             got = K.address(compressed=comp, testnet=tn, addr_type=typ)
@@ -187,7 +201,7 @@ def judge_pubkey_address(ctx, case):
         bad.append(("unsupported_type", "raise", "returned"))
     except ValueError:
         pass
-    return ctx.judge("pubkey_address", not bad, case, None, bad, cls="pk|%s|%s" % ("test" if tn else "main", case.get("ktag", "k")),
+    return ctx.judge("pubkey_address", not bad, case, None, bad, cls="pk|%s|%s|%s" % ("test" if tn else "main", case.get("ktag", "k"), src),
                      mech="C05.pubkey_address." + (bad[0][0].split("|")[0] if bad else ""))
 
 
@@ -295,7 +309,8 @@ def run(ctx):
         for _ in range(ctx.scale(400, 40000)):
             tag, k = gen_key(rnd, lzx)
             z = rnd.choice([0, 0, 0, 1, 2, 5])
-            judge_pubkey_address(ctx, {"k": k, "testnet": rnd.random() < 0.5, "ktag": tag,
+            judge_pubkey_address(ctx, {"k": k, "testnet": rnd.random() < 0.5, "ktag": tag, "uncompressed_first": rnd.random() < 0.5,
+                                       "key_source": rnd.choice(["private", "private", "compressed", "uncompressed", "hybrid", "raw64"]),
                                        "h160": b"\x00" * z + gen.rbytes(rnd, 20 - z), "h256": gen.rbytes(rnd, 32)})
         for _ in range(ctx.scale(240, 20000)):
             z = rnd.choice([0, 0, 1, 3, 20])
